@@ -433,6 +433,11 @@ func runC15(rc *RC) {
 			rc.Failf("C15.c4", "refused-packet-disturbs-stream", "the reader got %d bytes, the acknowledged packets carry %d bytes (buffer limit %d, %d written): a refused packet reached the reader or acknowledged data was lost", len(rdB.got), len(accepted), 3*block, len(payload))
 		}
 		checkPrefix0(rc, "a->b overflow", rdB.got, payload)
+		// the writer's application closed its end after the refusal: the reader drains what was accepted and reads end-of-file
+		rc.Evals["C15.c2"]++
+		if ca.Done() && !p.DoneA && !p.DoneB && !(rdB.done && rdB.eof) {
+			rc.Failf("C15.c2", "no-eof-after-close:after-refused-write", "a write was refused (%v), the writing end then called Close (returned), both sessions are served, and the other end's reader has not read end-of-file: done=%v eof=%v err=%v after %d bytes; stuck %v", werrA, rdB.done, rdB.eof, rdB.err, len(rdB.got), rc.S.Stuck())
+		}
 		finishC15(rc, p, &phase)
 		return
 	}
